@@ -36,6 +36,7 @@ type Item struct {
 	Payload       string        `json:"payload,omitempty"`
 	Key           string        `json:"key,omitempty"`
 	Fixed         bool          `json:"fixed,omitempty"` // never moved by the explorer
+	Manual        bool          `json:"manual,omitempty"` // fired only by a fine-mode trigger
 }
 
 type Scenario struct {
@@ -71,6 +72,8 @@ type Scenario struct {
 
 	// fine mode window
 	FineFrom  string `json:"fine_from,omitempty"` // script item name ("do:inst") whose firing switches fine mode on
+	FineAt    string `json:"fine_at,omitempty"`   // event name whose execution switches fine mode on (just before it runs)
+	FineFire  []int  `json:"fine_fire,omitempty"` // script items (marked Manual) fired at that moment
 	FinePts   int    `json:"fine_pts,omitempty"`
 	Preempt   int    `json:"preempt,omitempty"`
 
